@@ -10,7 +10,8 @@ LEVEL = "exploration"
 RULE = (
     "The C03 case strategy (cube x aggregate x fact form x weight form); every case is evaluated under BOTH "
     "missing-value policies and ALL THREE report formats (NaN in place, (sentinel, False) with a drawn sentinel "
-    "in {0, -1, 99.5}, plain 0) on BOTH cube types = 12 library calls per case. Oracle (a): the set of missing cells "
+    "in {0, -1, 99.5}, plain 0) on BOTH cube types = 12 library calls per case, each on fresh copies of the fact / weight arguments or (two cases in three) all on the "
+    "same objects. Oracle (a): the set of missing cells "
     "of the NaN and pair formats equals the brute-force rule (no rows; all / any rows invalid in fact or weight; "
     "for a mean also valid weights summing to zero). Oracle (b): NaN-format missing set == ~validity of the pair "
     "format, non-missing values identical across the three formats, the plain format holds 0 at the missing cells. "
@@ -122,6 +123,8 @@ def check(case, rec):
     Narg = N if (nd == 0 and agg == "count") else None
     formats = ["nan", ["tuple", case["sentinel"]], "plain"]
     any_mixed = 0
+    sharing = case.get("args", "fresh") != "fresh"
+    shared = c03.expected(dict(case, ignore=False), dense, full)[:2] if sharing else None
     for ignore in (False, True):
         sub = dict(case, ignore=ignore)
         _, _, exp_v, exp_m, mixed, tol = c03.expected(sub, dense, full)
@@ -131,7 +134,10 @@ def check(case, rec):
             for rma in formats:
                 if agg == "valid_count" and rma == "plain" and not ignore:
                     continue
-                farg, warg, _, _, _, _ = c03.expected(sub, dense, full)
+                if sharing:
+                    farg, warg = shared  # all twelve requests on the same fact / weight objects
+                else:
+                    farg, warg, _, _, _, _ = c03.expected(sub, dense, full)
                 what = "%s.%s(ignore_missing=%s, %s)" % (kind, agg, ignore, rma)
                 ev, em = exp_v, exp_m
                 with libcall(what):
@@ -187,7 +193,7 @@ def check(case, rec):
     if f is not None and (f["K"] or 0) >= 2:
         v = numpy.array(f["valid"], dtype=bool).reshape(N, f["K"])
         percol = bool((v != v[:, :1]).any())
-    rec.note("agg=" + agg, "nd=%d" % nd)
+    rec.note("agg=" + agg, "nd=%d" % nd, "args=" + ("shared by all requests" if sharing else "fresh per request"))
     if any_mixed:
         rec.note("has mixed cell")
     if percol:
